@@ -52,6 +52,10 @@ func (c *client) Create(ctx context.Context, record kvs.Record) (string, error) 
 		return "", checkErr(err)
 	}
 	if !ok {
+		// report the version of the record that is already there
+		if r, err := c.Get(ctx, record.Key); err == nil {
+			return r.Version, errors.ErrExist
+		}
 		return "", errors.ErrExist
 	}
 	return record.Version, nil
